@@ -168,14 +168,16 @@ def seed_for(check_id, batch_seed, i):
 
 def run_one(check, tier, seed=None, record=None):
     ch = Choices(seed=seed, record=record)
-    limit = getattr(check, 'RUN_LIMIT_S', 30)
+    # per-run watchdog in *CPU* seconds of this process (ITIMER_PROF), so that a loaded machine cannot trip it: a run costs
+    # milliseconds to a few seconds of CPU (the enumerating checks in the thorough tier), a library that loops burns CPU for ever
+    limit = getattr(check, 'RUN_LIMIT_CPU_S', 120)
     armed = False
     try:
         import signal
         import threading
         if threading.current_thread() is threading.main_thread():
-            signal.signal(signal.SIGALRM, _on_alarm)
-            signal.setitimer(signal.ITIMER_REAL, limit)
+            signal.signal(signal.SIGPROF, _on_alarm)
+            signal.setitimer(signal.ITIMER_PROF, limit)
             armed = True
     except (ValueError, AttributeError):
         pass
@@ -194,7 +196,7 @@ def run_one(check, tier, seed=None, record=None):
                 where.append('%s:%d in %s' % (fn.rsplit(os.sep + 'sismic' + os.sep, 1)[-1], tb.tb_lineno, tb.tb_frame.f_code.co_name))
             tb = tb.tb_next
         res = Result()
-        res.fail('library-hang', 'the run did not finish within %d s (a run normally takes milliseconds)' % limit,
+        res.fail('library-hang', 'the run burnt %d s of CPU without finishing (a run normally takes milliseconds to seconds)' % limit,
                  busy_in=' <- '.join(reversed(where[-4:])) or 'harness code')
     except Exception as e:
         # An exception that escapes from *library* code while a check drives it through legitimate API calls
@@ -215,7 +217,7 @@ def run_one(check, tier, seed=None, record=None):
             'sismic', type(e).__name__, str(e)[:100], fn[len(lib):], last.tb_lineno, last.tb_frame.f_code.co_name))
     finally:
         if armed:
-            signal.setitimer(signal.ITIMER_REAL, 0)
+            signal.setitimer(signal.ITIMER_PROF, 0)
     return res, ch.used()
 
 
